@@ -43,7 +43,8 @@ DOCS = [
     "@article{n1, author = {von Beethoven, Ludwig and {Simon and Schuster}}, editor = {Aa bb Cc dd}, title = {T}}\n",
     "@STRING{x = {1}}\n@Article{K, Title = {Mixed Case}, AUTHOR = {A B}}\n",
 ]
-BOM_DOCS = ["\ufeff@article{k, title = {T}}\n", "\ufeff% c\n@a{k}\n", "@a{k, t = {x\ufeffy}}\n\ufeff", "\ufeff"]
+BOM_DOCS = ["\ufeff@article{k, title = {T}}\n", "\ufeff% c\n@a{k}\n", "@a{k, t = {x\ufeffy}}\n\ufeff", "\ufeff",
+            "% Encoding: Cp1252\n@a{k, t = {x}}\n", "% Encoding: ISO8859_1\n\n@a{k}\n% Encoding: UTF-8\n", "% -*- coding: latin-1 -*-\n@a{k}\n", "%% Encoding: UTF-16\n@a{k}"]
 NONASCII = {
     "utf-8": "@article{ké, title = {Ünïcödé 中文 λ}, author = {Ærø Åse}}\n% commentaire é\n",
     "latin-1": "@article{ké, title = {Ünïcödé ÿ}, author = {Ærø Åse}}\n% commentaire é\n",
